@@ -134,21 +134,21 @@ def metaEq (a b : Meta) : Bool :=
   | _, _ => false
 
 /-- short-circuit `&&` / `||` whose right operand can panic -/
-def andM (a : Option Bool) (b : Unit → Option Bool) : Option Bool :=
+def goAnd (a : Option Bool) (b : Unit → Option Bool) : Option Bool :=
   match a with
   | none => none
   | some false => some false
   | some true => b ()
 
-def orM (a : Option Bool) (b : Unit → Option Bool) : Option Bool :=
+def goOr (a : Option Bool) (b : Unit → Option Bool) : Option Bool :=
   match a with
   | none => none
   | some true => some true
   | some false => b ()
 
-@[simp] theorem andM_some_true (b) : andM (some true) b = b () := rfl
-@[simp] theorem andM_some_false (b) : andM (some false) b = some false := rfl
-@[simp] theorem orM_some_true (b) : orM (some true) b = some true := rfl
-@[simp] theorem orM_some_false (b) : orM (some false) b = b () := rfl
+@[simp] theorem goAnd_some_true (b) : goAnd (some true) b = b () := rfl
+@[simp] theorem goAnd_some_false (b) : goAnd (some false) b = some false := rfl
+@[simp] theorem goOr_some_true (b) : goOr (some true) b = some true := rfl
+@[simp] theorem goOr_some_false (b) : goOr (some false) b = b () := rfl
 
 end Anonymongo.Go
